@@ -82,7 +82,7 @@ where
     pub fn unwrap(mut self) -> W {
         // See `Drop` implementation. This logic cannot be de-duplicated (i.e. by using unwrap in `Drop`) as we would
         // end up in illegal states.
-        if self.inner.is_some() {
+        if self.inner.is_some() && !self.buffer.is_empty() {
             let _result = self.map_and_write_current_buffer();
         }
 
@@ -127,7 +127,11 @@ impl<W: io::Write> io::Write for MappedWrite<W> {
 impl<W: io::Write> Drop for MappedWrite<W> {
     fn drop(&mut self) {
         // Drop implementations must not panic. We intentionally ignore the potential error here.
-        let _result = self.map_and_write_current_buffer();
+        // Only a non-empty remainder is mapped: there is nothing left to map when the input
+        // ended with the marker byte (or nothing was written at all).
+        if !self.buffer.is_empty() {
+            let _result = self.map_and_write_current_buffer();
+        }
     }
 }
 
